@@ -538,7 +538,13 @@ Definition check_conn (l : list sexp) : sexp :=
   | Some e, Some t, Some tb, Some q =>
       match as_list_of dec_edge e, as_Z t, dec_table tb with
       | Some es, Some total, Some tbl =>
-          match run_conn es total tbl q with inl v => v | inr cl => v_ok cl end
+          match run_conn es total tbl q with
+          | inl v => v
+          | inr cl => v_ok (cl ++ match field1 "via-interface" l with
+                                  | Some b => if is_sym "true" b then ["via-connection-interface"] else []
+                                  | None => []
+                                  end)
+          end
       | _, _, _ => v_bad "conn-decode"
       end
   | _, _, _, _ => v_bad "conn-fields"
